@@ -64,6 +64,7 @@ type interpreter struct {
 	noIfconv           bool
 	panicShown         bool
 	qlzBoth            bool
+	qlzReal            bool
 	exactFmt           bool // format symbolic integers exactly (forks over their values)
 }
 
